@@ -3,6 +3,7 @@ import re
 from .common import *
 from cpv.graph import field_writers
 from .shared import plugin_chain_order
+from cpv.ceval import Evaluator, Unknown
 
 UNIT = "src/CppUTest/TestPlugin.cpp"
 
@@ -42,63 +43,85 @@ def check(ctx, run):
     maxset = [e["v"] for en in prog.enums.values() for e in en["enumerators"] if e["qn"].endswith("SetPointerPlugin::MAX_SET")]
     run.ob("R1", "table extent equals MAX_SET", UNIT + ":setlist", bool(maxset) and ext == maxset[0], witness={"extent": ext, "MAX_SET": maxset})
 
-    def stop_fail(f, n):
-        return n["k"] in CALL_KINDS and (prog.callee_name(f, n) or "") == "UtestShell::fail"
-    for p in enumerate_paths(st, stop=stop_fail):
-        stores = [l for l, r, n in assignments(st, p) if l.startswith("setlist[")]
-        # bound from the guard node
-        guard = None
-        for k, v, b, cn in p.decisions:
-            leaf = st.nodes[cn]
-            leaf = st.strip(leaf, casts=False)
-            if leaf is not None and leaf["k"] == "BinaryOperator" and leaf.get("op") in (">=", "<", ">", "<=") and render(st, st.node(leaf["lhs"])) == "pointerTableIndex":
-                bound = const_value(st, st.node(leaf["rhs"]))
-                ak, apol = atom(st, leaf)
-                truth = (v == apol) if ak == k else None
-                guard = (leaf["op"], bound, truth)
-        if p.end == "stop":
-            ok = not stores and guard is not None and ((guard[0] == ">=" and guard[2] is True) or (guard[0] == "<" and guard[2] is False)) and guard[1] == ext
-            run.ob("R1", "full table fails the test before any store", st.site, ok, witness={"guard": guard, "stores": stores},
-                   what="" if ok else "the failing path is not exactly index >= %s" % ext)
+    class Halt(Exception):
+        pass
+
+    def fold_store(idx):
+        def fail(*a_):
+            raise Halt("fail")
+        ev = Evaluator(prog, st, env={"pointerTableIndex": idx, st.params[0]["name"]: ("ptr", "P", 0), "P[0]": 4242}, calls={"UtestShell::fail": fail})
+        ev.heap_mode = True
+        try:
+            ev.run_blocks(st.entry, max_steps=300)
+            failed = False
+        except Halt:
+            failed = True
+        stores = {k: v for k, v in ev.stores if k.startswith("setlist[")}
+        return failed, stores, ev.env.get("pointerTableIndex"), [k for k, v in ev.stores]
+    try:
+        for idx in (0, 1, ext // 2, ext - 2, ext - 1):
+            failed, stores, after, order = fold_store(idx)
+            want = {"setlist[%d].orig_value" % idx: 4242, "setlist[%d].orig" % idx: ("ptr", "P", 0)}
+            ok = not failed and stores == want
+            run.ob("R1", "store at index %d (below MAX_SET = %d) is accepted and writes entry %d only" % (idx, ext, idx), st.site, ok, witness={"failed": failed, "stores": {k: str(v) for k, v in stores.items()}},
+                   what="" if ok else ("bound checked rejects index %d, array extent and documented limit are %d" % (idx, ext) if failed else "stores %s" % sorted(stores)))
+            last_store = max([i for i, k in enumerate(order) if k.startswith("setlist[")] or [-1])
+            inc_at = [i for i, k in enumerate(order) if k == "pointerTableIndex"]
+            run.ob("R1", "store at index %d: the index advances by one after the entry is recorded" % idx, st.site, after == idx + 1 and inc_at and min(inc_at) > last_store, witness={"index_after": after, "order": order})
+            run.ob("R2", "store at index %d: the entry saves the pointer's address and its current value" % idx, st.site, stores == want, witness={k: str(v) for k, v in stores.items()})
+        for idx in (ext, ext + 1, 1000):
+            failed, stores, after, order = fold_store(idx)
+            run.ob("R1", "store at index %d (full table) fails the test before any store" % idx, st.site, failed and not stores and after == idx, witness={"failed": failed, "stores": sorted(stores)},
+                   what="" if failed and not stores else "index %d is written although the table has %d entries" % (idx, ext))
+    except Unknown as u:
+        run.broke("C17.R1: CppUTestStore cannot be folded: %s" % u)
+    ws = []
+    for f, n in global_writers(prog, "pointerTableIndex"):
+        d = delta_of(f, n, "pointerTableIndex")
+        if d is not None:
+            ws.append((f.qn, "+%d" % d[1] if d[1] > 0 else "%d" % d[1]))
         else:
-            ok = guard is not None and ((guard[0] == ">=" and guard[2] is False) or (guard[0] == "<" and guard[2] is True)) and guard[1] == ext \
-                and all(s.startswith("setlist[pointerTableIndex].") for s in stores) and len(stores) == 2
-            run.ob("R1", "stores use an index known to be below the extent, and every index below MAX_SET is accepted", st.site, ok, witness={"guard": guard, "stores": stores},
-                   what="" if ok else "bound checked is %s, array extent and documented limit are %s" % (guard[1] if guard else None, ext))
-            seq = []
-            for e in p.trace:
-                if isinstance(e, int):
-                    n = st.nodes[e]
-                    if n["k"] == "BinaryOperator" and n.get("op") == "=" and render(st, st.node(n["lhs"])).startswith("setlist["):
-                        seq.append("store")
-                    if n["k"] == "UnaryOperator" and n.get("op") == "++" and render(st, n["c"][0]) == "pointerTableIndex":
-                        seq.append("inc")
-            run.ob("R1", "the index advances by one after the entry is recorded", st.site, seq == ["store", "store", "inc"], witness=seq)
-            pairs = {l.split(".")[-1]: render(st, r) for l, r, n in assignments(st, p) if l.startswith("setlist[")}
-            fn = st.params[0]["name"]
-            run.ob("R2", "the entry saves the pointer's address and its current value", st.site, pairs == {"orig_value": "*" + fn, "orig": fn}, witness=pairs)
-    ws = sorted({(f.qn, render(f, n)) for f, n in global_writers(prog, "pointerTableIndex")})
-    allowed = {("CppUTestStore", "pointerTableIndex++"), ("SetPointerPlugin::SetPointerPlugin", "(pointerTableIndex = 0)"), ("SetPointerPlugin::postTestAction", "(pointerTableIndex = 0)")}
+            c = const_value(f, f.node(n["rhs"])) if n.get("rhs") is not None else None
+            ws.append((f.qn, "= %s" % (c if c is not None else render(f, f.node(n.get("rhs"))))))
+    ws = sorted(set(ws))
+    allowed = {("CppUTestStore", "+1"), ("SetPointerPlugin::SetPointerPlugin", "= 0"), ("SetPointerPlugin::postTestAction", "= 0")}
     run.ob("R1", "pointerTableIndex is advanced only by CppUTestStore and reset only by the constructor and the post action", UNIT + ":pointerTableIndex", set(ws) == allowed, witness=[list(w) for w in ws])
 
     # ---------------- R2 ----------------------------------------------------
     po = prog.fn("SetPointerPlugin::postTestAction")
     run.analysed(po)
-    ini = {k: render(po, v) for k, v in local_inits(po).items()}
-    loops = loop_blocks(po)
-    heads = [b for b in po.blocks.values() if b["id"] in loops and b.get("cond") is not None]
-    iv = [k for k, v in ini.items() if v == "(pointerTableIndex - 1)"]
-    ok = len(heads) == 1 and len(iv) == 1
-    w = {"init": ini}
-    if ok:
-        i_ = iv[0]
-        cond = atom(po, po.nodes[heads[0]["cond"]])
-        steps = [render(po, n) for n in po.walk() if n["k"] == "UnaryOperator" and n.get("op") in ("++", "--") and render(po, n["c"][0]) == i_]
-        body = [(l, render(po, r)) for l, r, n in assignments(po) if l != "pointerTableIndex"]
-        w.update({"cond": cond, "step": steps, "body": body})
-        ok = cond == ("(%s < 0)" % i_, False) and steps in (["%s--" % i_], ["--%s" % i_]) and [(l.replace("(void **)", ""), r) for l, r in body] == [("*setlist[%s].orig" % i_, "setlist[%s].orig_value" % i_)]
-    run.ob("R2", "restore walks the entries from the newest to the oldest and writes orig_value back through orig", po.site, ok, witness=w,
-           what="" if ok else "a pointer redirected twice in one test would not get its first value back, or entries are skipped")
+    bad = None
+    try:
+        # entries: (pointer, saved value); the same pointer may be redirected more than once in a test
+        for entries in ([], [("Q0", 100)], [("Q0", 100), ("Q1", 101)], [("Q0", 100), ("Q1", 101), ("Q0", 102)], [("Q2", 5), ("Q2", 6), ("Q2", 7), ("Q3", 8)]):
+            env = {"pointerTableIndex": len(entries)}
+            for i_, (q, v) in enumerate(entries):
+                env["setlist[%d].orig" % i_] = ("ptr", q, 0)
+                env["setlist[%d].orig_value" % i_] = v
+                env["%s[0]" % q] = 9999
+            # entries above the index hold stale data that must not be written back
+            env["setlist[%d].orig" % len(entries)] = ("ptr", "STALE", 0)
+            env["setlist[%d].orig_value" % len(entries)] = 1
+            env["STALE[0]"] = 9999
+            ev = Evaluator(prog, po, env=env)
+            ev.run_blocks(po.entry, max_steps=2000)
+            want = {}
+            for q, v in reversed(entries):
+                want[q] = v          # the oldest entry of a pointer is written last
+            got = {q: ev.env.get("%s[0]" % q) for q in want}
+            why = ""
+            if got != want:
+                why = "pointers end as %s, expected their values before the test %s" % (got, want)
+            elif ev.env.get("STALE[0]") != 9999 or [k for k, v in ev.stores if k.startswith("setlist[")]:
+                why = "an entry above the index is written back, or the table itself is modified"
+            elif ev.env.get("pointerTableIndex") != 0:
+                why = "the index is %s after the post action" % ev.env.get("pointerTableIndex")
+            if why and bad is None:
+                bad = "%d entries %s: %s" % (len(entries), entries, why)
+    except Unknown as u:
+        run.broke("C17.R2: the restoring post action cannot be folded: %s" % u)
+    run.ob("R2", "restore folded over tables of 0..4 entries (incl. a pointer redirected several times): every pointer gets back the value it had before the test, entries above the index are ignored", po.site, bad is None, witness=bad or "5 tables",
+           what="" if bad is None else "a pointer redirected twice in one test would not get its first value back, or entries are skipped: " + bad)
     okr = True
     for p in enumerate_paths(po):
         a = [(l, render(po, r)) for l, r, n in assignments(po, p)]
@@ -161,21 +184,70 @@ def check(ctx, run):
             ok = False
     run.ob("R5", "parseAllArguments delegates along next_ whenever its own parser declines", pa.site, ok)
     rm = prog.fn("TestPlugin::removePluginByName")
-    for p in enumerate_paths(rm):
-        val = p.val()
-        a = [(l, render(rm, r)) for l, r, n in assignments(rm, p)]
-        matched = any(v for k, v in val.items() if "getName()" in k)
-        if matched:
-            ok = [x for x in a if x[0] != "removed"] == [("next_", "next_->next_")] and ("removed", "next_") in a and a.index(("removed", "next_")) < a.index(("next_", "next_->next_"))
-            rv = render(rm, rm.node(p.ret.get("value"))) if p.ret is not None else None
-            run.ob("R5", "removePluginByName unlinks exactly the matched successor and returns it", rm.site, ok and rv == "removed", witness=a,
-                   what="" if ok else "the match branch stores more than `next_ = next_->next_`: other plugins are cut off the chain")
     rr = prog.fn("TestRegistry::removePluginByName")
+    run.analysed(rm)
     run.analysed(rr)
-    cs = [render(rr, c) for c in rr.calls()]
-    pn = rr.params[0]["name"]
-    ok = "firstPlugin_->removePluginByName(%s)" % pn in cs and any("firstPlugin_->getName()" in c for c in cs)
-    run.ob("R5", "the registry removes a matching head itself and asks the chain for the rest", rr.site, ok, witness=cs)
+    ADDR = {"A": 5000, "B": 6000, "C": 7000, "D": 7500, "E": 7800, "NullPlugin": 8000}
+
+    def chain_env(names):
+        env = {}
+        for i_, nm in enumerate(names):
+            env["@%d.name_" % ADDR[nm]] = ("str", nm)
+            env["@%d.next_" % ADDR[nm]] = ADDR[names[i_ + 1]] if i_ + 1 < len(names) else 0
+            env["@%d.enabled_" % ADDR[nm]] = 1
+        return env
+
+    def walk(env, head):
+        out, cur = [], head
+        while cur and len(out) < 10:
+            out.append([k for k, v in ADDR.items() if v == cur][0] if cur in ADDR.values() else cur)
+            cur = env.get("@%d.next_" % cur)
+        return out
+    PINL = {g.qn for g in prog.functions.values() if g.qn.startswith("TestPlugin::") and g.name in ("removePluginByName", "getPluginByName", "getNext", "getName")}
+    bad = None
+    try:
+        for names in (["A", "B", "C", "D", "E", "NullPlugin"], ["A", "B", "C", "NullPlugin"], ["A", "NullPlugin"], ["NullPlugin"]):
+            for target in ("A", "B", "C", "D", "E", "none"):
+                env = chain_env(names)
+                env["firstPlugin_"] = ADDR[names[0]]
+                env[rr.params[0]["name"]] = ("str", target)
+                ev = Evaluator(prog, rr, env=env, calls=string_hooks({"NullTestPlugin::instance": lambda *a_: ADDR["NullPlugin"]}))
+                ev.heap_mode = True
+                ev.pass_object = True
+                ev.inline = PINL
+                try:
+                    ev.run_blocks(rr.entry, max_steps=3000)
+                except Unknown as u:
+                    if "unbounded recursion" in str(u):
+                        bad = bad or "chain %s, removing %r: the walk along next_ does not end (the chain has become cyclic)" % (names, target)
+                        continue
+                    raise
+                got = walk(ev.env, ev.env.get("firstPlugin_"))
+                want = [x for x in names if x != target]
+                if got != want and bad is None:
+                    bad = "chain %s, removing %r: the chain becomes %s, expected %s" % (names, target, got, want)
+    except Unknown as u:
+        run.broke("C17.R5: plugin removal cannot be folded over the chain model: %s" % u)
+    run.ob("R5", "removePluginByName folded over chains of 1..6 plugins x every target: exactly the named plugin is unlinked (head, middle, last, absent), all others stay in order", rr.site, bad is None, witness=bad or "24 cases",
+           what="" if bad is None else "other plugins are cut off the chain, or the named one stays: " + bad)
+    bad = None
+    try:
+        for target in ("A", "B", "C"):
+            env = chain_env(["A", "B", "C", "NullPlugin"])
+            # the chain method on the head plugin: returns the removed node
+            env.update({"this": ADDR["A"], "next_": env["@5000.next_"], "name_": ("str", "A"), rm.params[0]["name"]: ("str", target)})
+            ev = Evaluator(prog, rm, env=env, calls=string_hooks())
+            ev.heap_mode = True
+            ev.pass_object = True
+            ev.inline = PINL
+            ev.run_blocks(rm.entry, max_steps=3000)
+            r = getattr(ev, "ret", None)
+            want = 0 if target == "A" else ADDR[target]
+            if r != want and bad is None:
+                bad = "removing %r from behind the head returns %s, expected %s" % (target, r, want)
+    except Unknown as u:
+        run.broke("C17.R5: TestPlugin::removePluginByName cannot be folded: %s" % u)
+    run.ob("R5", "TestPlugin::removePluginByName returns the plugin it unlinked (NULL when none of its successors carries the name)", rm.site, bad is None, witness=bad or "3 cases", what=bad or "")
     gp = prog.fn("TestRegistry::getPluginByName")
     rets = [render(gp, gp.node(n.get("value"))) for n in gp.walk() if n["k"] == "ReturnStmt"]
     run.ob("R5", "the registry looks a plugin up from the head of the chain", gp.site, rets == ["firstPlugin_->getPluginByName(%s)" % gp.params[0]["name"]], witness=rets)
